@@ -312,6 +312,41 @@ theorem all_members_hold_same_valid_messages (ps : List C02Chain.MParty) (k0 : C
           q.final.msgs.filter (·.mid == mid) = p.final.msgs.filter (·.mid == mid) :=
   C02Chain.all_members_hold_same_valid_messages ps k0 w T rest hmin hcross h
 
+/-- the sender's own copy: Created by `create_message`, Processed when the event comes back; one row throughout -/
+theorem own_copy_confirmed_client (c : Cl) (n ts idn mid mts tok nx : Nat) (hg : c.hasGroup = true) (ha : c.g.active = true)
+    (hp : c.g.props = []) (hsec : SecretsOK c.g) (hu : RowsUnique c.msgs) :
+    ∃ e, (send c n ts idn mid mts tok).2 = .ev e ∧ e.kind = .app mid mts tok ∧ e.sender = c.id ∧ e.path = c.g.path ∧
+      (send c n ts idn mid mts tok).1.msgs.filter (·.mid == mid) =
+        [{ mid := mid, author := c.id, state := 0, epoch := epochOf c.g.path, wrapper := n, msgTs := mts, tok := tok }] ∧
+      (deliver (send c n ts idn mid mts tok).1 e nx).2 = .app mid ∧
+      (deliver (send c n ts idn mid mts tok).1 e nx).1.msgs.filter (·.mid == mid) =
+        [{ mid := mid, author := c.id, state := 1, epoch := epochOf c.g.path, wrapper := n, msgTs := mts, tok := tok }] :=
+  C02Chain.own_copy_confirmed c n ts idn mid mts tok nx hg ha hp hsec hu
+
+/-- a late message (retained past state, outer layer still opens it) is filed under the receiver's epoch and survives every
+    later level-by-level schedule with slots -/
+theorem late_message_kept_partial (c : Cl) (e : Ev) (mid ts tok : Nat) (Ls : List Level) (Ms : List (List Ev))
+    (sched : List (List Ev × List Ev)) (nx : Nat)
+    (hg : c.hasGroup = true) (ha : c.g.active = true) (hr : 1 ≤ c.retention) (hsec : SecretsOK c.g) (hbelow : Below c)
+    (hn : c.g.recNid = c.g.nid) (hu : RowsUnique c.msgs)
+    (hk : e.kind = .app mid ts tok) (htag : e.tag = c.g.recNid)
+    (hopen : outerOpens (ensureSecret c.g) e = true) (hle : epochOf e.path ≤ epochOf c.g.path)
+    (hpast : epochOf e.path < epochOf c.g.path → c.g.past.contains e.path = true)
+    (hf : e.sender ≠ c.id) (hc : e.cipher ∉ c.g.consumed) (hnb : getRec c e.n = none)
+    (hch : ChainEv c.id (core c.g) Ls) (hms : SlotsEv c.id (core c.g) Ls Ms)
+    (hfresh : ∀ x ∈ evs Ls ++ Ms.flatten, getRec c x.n = none ∧ x.cipher ∉ c.g.consumed)
+    (hdist : ∀ x ∈ evs Ls ++ Ms.flatten, x.n ≠ e.n ∧ x.cipher ≠ e.cipher)
+    (hmid : ∀ x ∈ Ms.flatten, appMid x ≠ some mid)
+    (hw : MLevelWise (evs Ls ++ Ms.flatten) c.g.path Ls Ms sched) :
+    (run nx c (e :: flat sched)).g.path = c.g.path ++ Ls.map (·.1.cipher) ∧
+    (run nx c (e :: flat sched)).msgs.filter (·.mid == mid) =
+      [{ mid := mid, author := e.sender, state := 1, epoch := epochOf c.g.path, wrapper := e.n, msgTs := ts, tok := tok }] ∧
+    (∀ k lm M, sched[k]? = some lm → Ms[k]? = some M → ∀ x ∈ lm.2, x ∈ M → ∀ mid' ts' tok', x.kind = .app mid' ts' tok' →
+      (run nx c (e :: flat sched)).msgs.filter (·.mid == mid') =
+        [{ mid := mid', author := x.sender, state := 1, epoch := epochOf c.g.path + k + 1, wrapper := x.n, msgTs := ts', tok := tok' }]) :=
+  C02Chain.late_message_kept_partial c e mid ts tok Ls Ms sched nx hg ha hr hsec hbelow hn hu hk htag hopen hle hpast hf hc hnb
+    hch hms hfresh hdist hmid hw
+
 /-- the slot hypothesis is needed: for arbitrary interleavings the statement is false of the code
     (`handshake-before-predecessor-blocked`; `receiver-epoch-tag`) -/
 theorem history_needs_slots : ¬ C02Chain.C02_history_full := C02Chain.C02_history_full_false
